@@ -182,22 +182,33 @@ class Oracle(simcheck.BaseOracle):
         self.closes = 0
         self.client_at = {}   # id(order) -> client of the accepted placement (a later refused request may overwrite order.client, see C02)
 
-    def _note_new(self, market):
+    def _note_new(self, run, market):
         # replacement orders enter the blotter inside the execution of a replace package (no place action):
         # their client is the one they carry when first seen there, before any later request can overwrite it
         if market is not None:
             for o in market.blotter:
-                self.client_at.setdefault(id(o), o.client)
+                if id(o) not in self.client_at:
+                    # (an order that was not placed by the script is a replacement created by the framework (simworld notes which order it replaces): it
+                    # belongs to the client THAT order was placed with, whatever its own client attribute says)
+                    before = run.replaced.get(id(o))
+                    if before is not None and id(before) not in self.client_at:
+                        before = None
+                    self.client_at[id(o)] = self.client_at[id(before)] if before is not None else o.client
 
     def in_callback(self, run, strategy, market, market_book):
-        self._note_new(market)
+        self._note_new(run, market)
 
     def before_action(self, run, sidx, market, action, order, state):
-        self._note_new(market)
+        self._note_new(run, market)
 
     def on_action(self, run, sidx, market, a, result, order):
         if a[0] == "place" and result == "True" and order is not None:
             self.client_at[id(order)] = order.client
+
+    def in_closed(self, run, strategy, market, market_book):
+        # the closed-market callback is where a strategy adds up its result: every order already carries the runner's result
+        # and the settlement terms of the book it is handed
+        self.check_orders(market, market_book, "inside process_closed_market")
 
     def after_update(self, run, mb):
         if mb.status != "CLOSED":
@@ -206,6 +217,10 @@ class Oracle(simcheck.BaseOracle):
         if market is None:
             return
         self.closes += 1
+        self.check_orders(market, mb, "after the closing update")
+        self.check_summaries(run, market, mb)
+
+    def check_orders(self, market, mb, where):
         # independent settlement of every order from the closing book itself (result of ITS runner line) and its fills
         status_of = {(r.selection_id, r.handicap): r.status for r in mb.runners}
         n_win = len([r for r in mb.runners if r.status == "WINNER"])
@@ -236,8 +251,10 @@ class Oracle(simcheck.BaseOracle):
             sm = sum(sz for _, sz in fills)
             slack = Fraction(5, 1000) * sm * (2 if mtype == "EACH_WAY" else 1) + Fraction(5, 1000) + Fraction(1, 10**9)
             if abs(frac(o.simulated.profit) - spec) > slack:
-                self.add("order-profit-vs-closing-book", "order %d (%s sel %s hc %s) profit %s, closing book says %s and the fills %s pay %s" % (
-                    o._vidx, o.side, o.selection_id, o.handicap, o.simulated.profit, status_of[k], [(float(a), float(b)) for a, b in fills], float(spec)))
+                self.add("order-profit-vs-closing-book", "%s: order %d (%s sel %s hc %s) profit %s, closing book says %s and the fills %s pay %s" % (
+                    where, o._vidx, o.side, o.selection_id, o.handicap, o.simulated.profit, status_of[k], [(float(a), float(b)) for a, b in fills], float(spec)))
+
+    def check_summaries(self, run, market, mb):
         for ci, cl in enumerate(run.clients):
             orders = [o for o in market.blotter if self.client_at.get(id(o), o.client) is cl and o.size_matched > 0]
             c = market.cleared(cl)
